@@ -85,6 +85,19 @@ impl CompileState<'_> {
             fields.push((field_name.clone(), e));
         }
 
+        // Every field of the definition must be initialized.
+        if let Some(missing) = struct_def.iter().find(|f| {
+            !fields
+                .iter()
+                .any(|(name, _)| name.inner == f.identifier.inner)
+        }) {
+            let note = format!(
+                "field `{}` of `Struct {}` is not initialized",
+                missing.identifier.inner, s.identifier
+            );
+            return Err(self.err(NotDefined(note, s.identifier.span)));
+        }
+
         Ok(thir::NamedStruct {
             identifier: s.identifier.clone(),
             fields,
